@@ -322,6 +322,11 @@ func (d *driver) runCaseFull(c Case) (out Outcome, keys []string, ctxState strin
 						// degenerate square (e.g. width 1: every cell equals the only share): the "other"
 						// position's bytes ARE the honest answer
 						a.Kind, a.Label = "correct", a.Label+"=honest"
+					} else if succeeds[key][pos] && (a.Kind == "other" || a.Kind == "emptyok" || (a.Kind == "trunc" && q.Type != "eds")) {
+						// not a forgery after all: a client that receives exactly these bytes for this request
+						// ends up with verified, committed data (e.g. the fall-back bit flip hit a field the
+						// decoder ignores). The specification only lets ext / garble / eds-trunc decode well.
+						a.Kind, a.Label = "correct", a.Label+"=valid"
 					}
 				}
 				sc.queue[key] = append(sc.queue[key], a)
